@@ -9,6 +9,7 @@
 
 #include "bsx.h"
 #include <votca/csg/topology.h>
+#include <memory>
 
 using namespace votca::csg;
 using bsx::hexd;
@@ -290,8 +291,100 @@ static Box parse_box(const std::string &s, int mode) {
   b.mode = mode;
   return b;
 }
+
+// ------------------------------------------------------------------ reuse histories
+// Topology::setBox called several times on ONE Topology (auto <-> explicit, orthorhombic -> triclinic -> open and back) and
+// BoundaryCondition objects whose box is replaced must behave exactly (bitwise) like a fresh object given only the last box.
+static std::vector<Box> reuse_configs() {
+  auto mk = [](double ax, double by, double cz, double bx, double cx, double cy, int mode) {
+    Box b; b.ax = ax; b.by = by; b.cz = cz; b.bx = bx; b.cx = cx; b.cy = cy; b.mode = mode; return b;
+  };
+  return {mk(1, 1.5, 3, 0, 0, 0, 0),            // 0 diagonal, auto (orthorhombic)
+          mk(1, 1.5, 3, 0.5, -0.25, 0.375, 0),  // 1 triclinic, auto
+          mk(0, 0, 0, 0, 0, 0, 0),              // 2 zero matrix, auto (open)
+          mk(3, 1, 1.5, 0, 0, 0, 2),            // 3 diagonal, explicitly triclinic
+          mk(1.5, 1, 3, 0.375, -0.75, 0.5, 3),  // 4 triclinic matrix, explicitly open
+          mk(1, 1, 1, -0.5, 0.5, -0.5, 1),      // 5 triclinic, explicit
+          mk(1, 1, 1, 0, 0, 0, 1)};             // 6 cubic, explicitly orthorhombic
+}
+struct Probe { D3 ri, rj; };
+static std::vector<Probe> reuse_probes(const Box &bx) {
+  std::vector<Probe> p;
+  const double f[5] = {0.0, 0.375, 0.5, 0.625, 1.0};
+  const I3 offs[3] = {{{0, 0, 0}}, {{0, 0, 1000}}, {{-2, 1, 0}}};
+  for (const D3 &base : {D3{0, 0, 0}, D3{0.875, 0.125, 0.375}})
+    for (double x : f) for (double y : f) for (double z : f)
+      for (const I3 &n : offs) {
+        D3 ri = place(bx, base), d = place(bx, {x, y, z});
+        p.push_back({ri, shifted(bx, {ri[0] + d[0], ri[1] + d[1], ri[2] + d[2]}, n)});
+      }
+  return p;
+}
+static bool bits_equal(const Eigen::Vector3d &a, const Eigen::Vector3d &b) { return memcmp(a.data(), b.data(), 3 * sizeof(double)) == 0; }
+static bool bits_equal(double a, double b) { return memcmp(&a, &b, sizeof(double)) == 0; }
+static std::string seqstr(const std::vector<int> &seq) { std::string s; for (size_t i = 0; i < seq.size(); i++) s += (i ? "," : "") + std::to_string(seq[i]); return s; }
+// kind 0: Topology::setBox history; kind 1..3: OrthorhombicBox / TriclinicBox / OpenBox object, setBox history (+ Clone of the reused object)
+static Verdict check_reuse(int kind, const std::vector<int> &seq) {
+  Verdict V;
+  std::vector<Box> cfg = reuse_configs();
+  const Box &last = cfg[seq.back()];
+  std::vector<Probe> probes = reuse_probes(last);
+  std::string hist;
+  for (size_t i = 0; i < seq.size(); i++) hist += (i ? " -> " : "") + cfg[seq[i]].pretty();
+  auto fail = [&](const std::string &key, const std::string &what) { V.ok = false; V.key = key; V.what = what + "  [history " + hist + "]"; return V; };
+  if (kind == 0) {
+    Ctx re, fr;
+    for (int c : seq) apply_box(re.top, cfg[c]);
+    apply_box(fr.top, last);
+    std::string key = "reuse-topology-setbox-" + last.keycls() + "-after-" + cfg[seq[seq.size() - 2]].keycls();
+    if (re.top.getBoxType() != fr.top.getBoxType()) return fail(key, "box type " + std::to_string((int)re.top.getBoxType()) + " on the reused Topology, " + std::to_string((int)fr.top.getBoxType()) + " on a fresh one");
+    if (re.top.getBox() != fr.top.getBox()) return fail(key, "getBox() differs from a fresh Topology");
+    if (!bits_equal(re.top.BoxVolume(), fr.top.BoxVolume())) return fail(key, "BoxVolume " + bsx::fmt(re.top.BoxVolume()) + " on the reused Topology, " + bsx::fmt(fr.top.BoxVolume()) + " on a fresh one");
+    if (!last.open() && !bits_equal(re.top.ShortestBoxSize(), fr.top.ShortestBoxSize()))
+      return fail(key, "ShortestBoxSize " + bsx::fmt(re.top.ShortestBoxSize()) + " on the reused Topology, " + bsx::fmt(fr.top.ShortestBoxSize()) + " on a fresh one");
+    for (auto &p : probes)
+      for (int gd = 0; gd < 2; gd++) {
+        Eigen::Vector3d a = call(re, p.ri, p.rj, gd), b = call(fr, p.ri, p.rj, gd), c = call(re, p.rj, p.ri, gd), d = call(fr, p.rj, p.ri, gd);
+        if (!bits_equal(a, b) || !bits_equal(c, d))
+          return fail(key, std::string(gd ? "getDist" : "BCShortestConnection") + " gives " + vs(a) + " on the reused Topology and " + vs(b) + " on a fresh one for ri=" + vs(ev(p.ri)) + " rj=" + vs(ev(p.rj)));
+      }
+    V.cls = bsx::fnv("reuse-top|" + std::to_string(seq.back()) + "|" + std::to_string((int)fr.top.getBoxType()) + "|" + bsx::fmt(fr.top.BoxVolume()));
+    return V;
+  }
+  const char *cn[4] = {"", "OrthorhombicBox", "TriclinicBox", "OpenBox"};
+  std::unique_ptr<BoundaryCondition> re, fr;
+  auto make = [&]() -> std::unique_ptr<BoundaryCondition> {
+    if (kind == 1) return std::make_unique<OrthorhombicBox>();
+    if (kind == 2) return std::make_unique<TriclinicBox>();
+    return std::make_unique<OpenBox>();
+  };
+  re = make(); fr = make();
+  for (int c : seq) re->setBox(cfg[c].mat());
+  fr->setBox(last.mat());
+  std::unique_ptr<BoundaryCondition> cl = re->Clone();
+  for (int which = 0; which < 2; which++) {
+    BoundaryCondition &x = which == 0 ? *re : *cl;
+    std::string key = std::string("reuse-boundarycondition-") + cn[kind] + (which == 0 ? "-setbox" : "-clone");
+    if (x.getBoxType() != fr->getBoxType() || x.getBox() != fr->getBox()) return fail(key, "box type / matrix differ from a fresh object");
+    if (!bits_equal(x.BoxVolume(), fr->BoxVolume())) return fail(key, "BoxVolume " + bsx::fmt(x.BoxVolume()) + " vs " + bsx::fmt(fr->BoxVolume()) + " on a fresh object");
+    if (kind != 3 && !last.zero() && !bits_equal(x.getShortestBoxDimension(), fr->getShortestBoxDimension()))
+      return fail(key, "getShortestBoxDimension " + bsx::fmt(x.getShortestBoxDimension()) + " vs " + bsx::fmt(fr->getShortestBoxDimension()) + " on a fresh object");
+    for (auto &p : probes) {
+      Eigen::Vector3d a = x.BCShortestConnection(ev(p.ri), ev(p.rj)), b = fr->BCShortestConnection(ev(p.ri), ev(p.rj));
+      if (!bits_equal(a, b)) return fail(key, "BCShortestConnection gives " + vs(a) + ", a fresh object " + vs(b) + " for ri=" + vs(ev(p.ri)) + " rj=" + vs(ev(p.rj)));
+    }
+  }
+  V.cls = bsx::fnv(std::string("reuse-bc|") + cn[kind] + "|" + std::to_string(seq.back()));
+  return V;
+}
+
 static Verdict run_case(const std::string &cas) {
   auto m = bsx::kvs(cas);
+  if (cas.rfind("reuse;", 0) == 0) {
+    std::vector<int> seq;
+    for (auto &t : bsx::split(m["seq"], ',')) seq.push_back(atoi(t.c_str()));
+    return check_reuse(atoi(m["kind"].c_str()), seq);
+  }
   Ctx cx;
   Box bx = parse_box(m["box"], atoi(m["mode"].c_str()));
   apply_box(cx.top, bx);
@@ -394,6 +487,9 @@ int main(int argc, char **argv) {
            "either point with <=1 non-zero component from {0,+-1,+-2,+-3,+-1000,+-65536}; level B (all 729 tilt combinations of the 1x1x1 and 1x1.5x3 boxes + open): full 7^3 base lattice x 8^3 differences via "
            "Topology::getDist, and 3 bases x 8^3 differences x offsets with 2 non-zero components from {+-1,+-1000}; level C (all 729 tilt combinations of the 3x1x1.5 box): 2 bases x 15^3 differences "
            "(sixteenths + 1/2+2^-20) x the level-A offsets. ";
+  R.rule += "Reuse histories: every sequence of 2" + std::string(thorough ? " and 3" : "") + " setBox calls over 7 configurations (diagonal auto, triclinic auto, zero matrix, diagonal typed triclinic, "
+           "triclinic matrix typed open, triclinic explicit, cubic typed orthorhombic) on ONE Topology, and on one OrthorhombicBox / TriclinicBox / OpenBox object (plus its Clone): box type, matrix, BoxVolume, "
+           "ShortestBoxSize and BCShortestConnection/getDist on 750 probe pairs must equal bitwise those of a fresh object given only the last box. ";
   R.rule += "Oracle: integer-combination residual, membership in the set of "
            "brute-force (7^3 images, long double) minimisers within 1e-9 (ties accept any), sign flip on swap, shift invariance; outside the guaranteed "
            "range (triclinic, distance >= half shortest height) only integer-combination, invariance and antisymmetry up to rounding ties. "
@@ -472,6 +568,25 @@ int main(int argc, char **argv) {
       R.counters["levelC_boxes"]++;
     }
     R.counters["boxes"]++;
+  }
+  // ---- reuse histories (all sequences of 2, thorough also of 3, of the 7 reuse configurations; 4 object kinds)
+  {
+    long long ji = 0;
+    size_t ncfg = reuse_configs().size();
+    for (int len = 2; len <= (thorough ? 3 : 2); len++) {
+      std::vector<int> idx(len, 0), radix(len, (int)ncfg);
+      do {
+        std::vector<int> seq(idx.rbegin(), idx.rend());
+        for (int kind = 0; kind < 4; kind++) {
+          if (!a.mine(ji++)) continue;
+          Verdict v = check_reuse(kind, seq);
+          R.eval();
+          R.counters[kind == 0 ? "reuse_histories_topology_setbox" : "reuse_histories_boundarycondition"]++;
+          if (!v.ok) R.fail(v.key, v.what, "reuse;kind=" + std::to_string(kind) + ";seq=" + seqstr(seq));
+          else R.cls(v.cls);
+        }
+      } while (bsx::next(idx, radix));
+    }
   }
   for (auto &kv : per) R.counters["cases_" + kv.first] = kv.second;
   R.counters["tie_cases"] = cx.ties;
